@@ -26,8 +26,21 @@
 //!                    circles and their label sets are those of Link::components()   (model: KhCube.circles)
 //!                                                                            -> circ=<ok|FAIL|P>
 //! state = `[comp comp ..] n= em= cl= cc= chi= ep=<sorted endpts> d=<Display>`, comp = a1.2.3 | c4.5
+//!
+//! cobordisms (the REAL cob.rs; model Model/TngCob.v):
+//!   cb <term> ; <term> ; ...   acc = Cob::empty(); for every term: b = the term's Cob, print b, acc.connect(b) (and
+//!                              `connected`), print acc; at the end is_invertible / inv of acc
+//!   cx <term> ; <term>         CobComp::connect of the first components of the two terms, called directly
+//!   term = s T a b c d g x y   the saddle of the crossing T[a,b,c,d] (T in X M): CobComp::new(from_resolved(x.resolved(0)),
+//!                              from_resolved(x.resolved(1)), g, (x,y))   (= CobComp::sdl_from when g = x = y = 0)
+//!        | i T a b c d g x y   one cylinder CobComp::new(Tng::from(c), Tng::from(c), g, (x,y)) per component c of
+//!                              from_resolved(T[a,b,c,d]) (T in V H)      (= Cob::id when g = x = y = 0)
+//!        | c g x y             the closed component of genus g with dots (x,y)
+//!   cob  = `{comp | comp ..} n= chi= deg= nb= inv= cl=` ; comp = `[src]>[tgt] g= d=x,y nb= chi= deg=`
 use std::collections::BTreeSet;
+use yui_kh::kh::internal::v2::cob::{Cob, CobComp};
 use yui_kh::kh::internal::v2::tng::{Tng, TngComp};
+use yui::bitseq::Bit;
 use yui_link::{Crossing, CrossingType};
 use yui_verif_harness::khutil::*;
 use yui_verif_harness::*;
@@ -257,10 +270,116 @@ fn run_pc(body: &str) -> String {
         b(guarded(|| p == q)), b(guarded(|| q == p)), b(guarded(|| p != q)), cmp, cont.join(""))
 }
 
+
+// ---------------------------------------------------------------------------------------------------
+// cobordisms
+// ---------------------------------------------------------------------------------------------------
+fn tng_raw(t: &Tng) -> String {
+    t.comps().map(comp_str).collect::<Vec<_>>().join(" ")
+}
+
+fn opt<T: ToString>(x: Option<T>) -> String {
+    x.map(|v| v.to_string()).unwrap_or("P".into())
+}
+
+/// the dots of a component are private: recover them by comparing with CobComp::new(.., (x, n - x))
+fn dots_of(c: &CobComp) -> String {
+    let n = c.ndots();
+    for x in 0..=n {
+        if *c == CobComp::new(c.src().clone(), c.tgt().clone(), c.genus(), (x, n - x)) {
+            return format!("{},{}", x, n - x);
+        }
+    }
+    "?dots".into()
+}
+
+fn cc_str(c: &CobComp) -> String {
+    format!("[{}]>[{}] g={} d={} nb={} chi={} deg={}", tng_raw(c.src()), tng_raw(c.tgt()), c.genus(), dots_of(c),
+        opt(guarded(|| c.nbdr_comps())), opt(guarded(|| c.euler_num())), opt(guarded(|| c.deg())))
+}
+
+fn cob_str(c: &Cob) -> String {
+    let comps: Vec<String> = c.comps().map(cc_str).collect();
+    format!("{{{}}} n={} chi={} deg={} nb={} inv={} cl={}", comps.join(" | "), c.ncomps(), opt(guarded(|| c.euler_num())),
+        opt(guarded(|| c.deg())), opt(guarded(|| c.nbdr_comps())), c.is_invertible() as u8, c.is_closed() as u8)
+}
+
+/// None = malformed text; Some(None) = a constructor panicked; the String is a self-check marker
+fn parse_term(t: &str) -> Option<Option<(Cob, &'static str)>> {
+    let w: Vec<&str> = t.split_whitespace().collect();
+    match w.first().copied() {
+        Some("c") => {
+            let p = nums(&w[1..])?;
+            if p.len() != 3 { return None; }
+            Some(guarded(|| (Cob::from(CobComp::new(Tng::empty(), Tng::empty(), p[0], (p[1], p[2]))), "")))
+        }
+        Some(k @ ("s" | "i")) => {
+            if w.len() != 9 { return None; }
+            let x = parse_crossing(&w[1..6])?;
+            let p = nums(&w[6..])?;
+            let (g, dx, dy) = (p[0], p[1], p[2]);
+            let plain = g == 0 && dx == 0 && dy == 0;
+            if k == "s" {
+                Some(guarded(|| {
+                    assert!(!x.is_resolved());
+                    let src = Tng::from_resolved(&x.resolved(Bit::Bit0));
+                    let tgt = Tng::from_resolved(&x.resolved(Bit::Bit1));
+                    let c = CobComp::new(src, tgt, g, (dx, dy));
+                    let ok = !plain || c == CobComp::sdl_from(&x);
+                    (Cob::from(c), if ok { "" } else { " ?ctor" })
+                }))
+            } else {
+                Some(guarded(|| {
+                    let t = Tng::from_resolved(&x);
+                    let comps: Vec<CobComp> = t.comps().map(|c| CobComp::new(Tng::from(c.clone()), Tng::from(c.clone()), g, (dx, dy))).collect();
+                    let cob = Cob::new(comps);
+                    let ok = !plain || cob == Cob::id(&t);
+                    (cob, if ok { "" } else { " ?ctor" })
+                }))
+            }
+        }
+        _ => None,
+    }
+}
+
+fn run_cb(body: &str) -> String {
+    let mut acc = Cob::empty();
+    let mut out = vec![];
+    for t in body.split(';') {
+        if t.trim().is_empty() { continue; }
+        let Some(r) = parse_term(t) else { out.push("BAD-TERM".into()); break; };
+        let Some((b, mark)) = r else { out.push("P".into()); return out.join(" | "); };
+        out.push(format!("b={}{}", cob_str(&b), mark));
+        let r1 = guarded(|| acc.connected(&b));
+        if guarded(|| acc.connect(b)).is_none() { out.push("P".into()); return out.join(" | "); }
+        let s = cob_str(&acc);
+        let same = matches!(r1, Some(ref t) if cob_str(t) == s);
+        out.push(format!("acc={}{}", s, if same { "" } else { " ?connected" }));
+    }
+    let inv = match guarded(|| acc.inv()) {
+        Some(Some(i)) => cob_str(&i),
+        Some(None) => "-".into(),
+        None => "P".into(),
+    };
+    out.push(format!("inv={}", inv));
+    out.join(" | ")
+}
+
+fn run_cx(body: &str) -> String {
+    let ts: Vec<&str> = body.split(';').filter(|t| !t.trim().is_empty()).collect();
+    if ts.len() != 2 { return "BAD-CASE".into(); }
+    let (Some(a), Some(b)) = (parse_term(ts[0]), parse_term(ts[1])) else { return "BAD-TERM".into() };
+    let (Some((a, _)), Some((b, _))) = (a, b) else { return "P".into() };
+    let (Some(mut ca), Some(cb)) = (guarded(|| a.comp(0).clone()), guarded(|| b.comp(0).clone())) else { return "P".into() };
+    let able = ca.is_connectable(&cb);
+    let r = guarded(|| { ca.connect(cb); ca });
+    format!("able={} r={}", able as u8, r.map(|c| cc_str(&c)).unwrap_or("P".into()))
+}
+
 fn run_case(line: &str) -> String {
     let line = line.trim();
     let (kind, body) = line.split_once(' ').unwrap_or((line, ""));
-    let r = guarded(|| if kind == "pc" { run_pc(body) } else { run_script(body) });
+    let r = guarded(|| match kind { "pc" => run_pc(body), "cb" => run_cb(body), "cx" => run_cx(body), _ => run_script(body) });
     r.unwrap_or("P-CASE".into())
 }
 
@@ -480,6 +599,43 @@ fn gen_pc(r: &mut Rng) -> String {
     format!("pc {} {} , {} {}", k1, e1.join(" "), k2, e2.join(" "))
 }
 
+
+fn rand_gxy(r: &mut Rng) -> (u64, u64, u64) {
+    if r.chance(3, 4) { (0, 0, 0) } else { (r.below(3), r.below(3), r.below(3)) }
+}
+
+fn cb_term(r: &mut Rng, e: &[usize; 4], saddle: bool) -> String {
+    let (g, x, y) = rand_gxy(r);
+    if saddle {
+        format!("s {} {} {} {} {} {} {} {}", if r.bool() { 'X' } else { 'M' }, e[0], e[1], e[2], e[3], g, x, y)
+    } else {
+        format!("i {} {} {} {} {} {} {} {}", if r.bool() { 'V' } else { 'H' }, e[0], e[1], e[2], e[3], g, x, y)
+    }
+}
+
+/// cobordisms glued from saddles and cylinders of the crossings of a diagram (as TngComplex::connect_edges does)
+fn gen_cb(r: &mut Rng, maxc: usize) -> String {
+    let mut pd = random_pd(r, maxc);
+    shuffle(&mut pd, r);
+    if r.chance(1, 3) { let k = 1 + r.below(pd.len() as u64) as usize; pd.truncate(k); }
+    let nsdl = match r.below(4) { 0 => 0, 1 | 2 => 1, _ => 2 };
+    let mut terms: Vec<String> = pd.iter().enumerate().map(|(k, e)| cb_term(r, e, k < nsdl)).collect();
+    shuffle(&mut terms, r);
+    if r.chance(1, 8) { let (g, x, y) = (r.below(3), r.below(3), r.below(3)); terms.push(format!("c {} {} {}", g, x, y)); }
+    format!("cb {}", terms.join(" ; "))
+}
+
+fn gen_cx(r: &mut Rng, maxc: usize) -> String {
+    let pd = random_pd(r, maxc);
+    let i = r.below(pd.len() as u64) as usize;
+    let j = r.below(pd.len() as u64) as usize;
+    if i == j { return gen_cb(r, maxc); }
+    let (sa, sb) = (r.bool(), r.bool());
+    let a = cb_term(r, &pd[i], sa);
+    let b = cb_term(r, &pd[j], sb);
+    format!("cx {} ; {}", a, b)
+}
+
 fn fixed_cases() -> Vec<String> {
     let mut v: Vec<String> = vec![
         // the unit tests of tng.rs / path.rs
@@ -513,6 +669,18 @@ fn fixed_cases() -> Vec<String> {
         "pc a 1 2 1 , a 1 3".into(),
         "pc c 1 1 2 , c 1 2 1".into(),
         "pc a , a 1".into(),
+        // cob.rs unit tests: connect_incr_genus in the language of crossings (two parallel strands joined twice)
+        "cb i H 1 2 3 4 0 0 0 ; i V 1 5 6 3 0 0 0 ; i V 2 7 8 4 0 0 0".into(),
+        "cb s X 1 2 3 4 0 0 0 ; i V 2 5 6 3 0 0 0 ; i H 1 7 8 4 0 0 0".into(),
+        "cb s X 1 4 2 5 0 0 0 ; i V 3 6 4 1 0 0 0 ; i H 5 2 6 3 0 0 0".into(),
+        "cb s X 4 1 3 2 0 0 0 ; s M 2 3 1 4 0 0 0".into(),
+        "cb i V 4 1 3 2 0 0 0 ; i H 2 3 1 4 0 0 0".into(),
+        "cb c 0 0 0 ; c 1 1 0 ; i V 1 2 3 4 1 1 1".into(),
+        "cb s V 1 2 3 4 0 0 0".into(),
+        "cb i X 1 2 3 4 0 0 0".into(),
+        "cx s X 1 2 3 4 0 0 0 ; i V 5 6 7 8 0 0 0".into(),
+        "cx s X 1 2 3 4 0 0 0 ; i V 2 6 7 3 0 1 0".into(),
+        "cx c 0 0 0 ; i V 2 6 7 3 0 1 0".into(),
     ];
     // every table diagram, every complete resolution of the small ones
     for (_, pd) in table_knots() {
@@ -536,7 +704,9 @@ fn main() {
             for c in fixed_cases() { let res = run_case(&c); o.case(&c, &res); }
             let (n, maxc) = if thorough { (80000, 14) } else { (8000, 9) };
             for i in 0..n {
-                let c = match i % 10 {
+                let c = match i % 12 {
+                    10 => gen_cb(&mut r, maxc.min(8)),
+                    11 => if i % 24 == 11 { gen_cx(&mut r, maxc.min(8)) } else { gen_cb(&mut r, maxc.min(8)) },
                     0 => gen_kc(&mut r, maxc),
                     1 => gen_kp(&mut r, maxc),
                     2 => gen_kt(&mut r, maxc),
